@@ -32,7 +32,7 @@ def main(argv=None) -> int:
         if a.replay:
             case = json.loads(open(a.replay).read())
             return mod.replay(case)
-        ctx = core.Ctx(pid, a.tier, seed, level=getattr(mod, "LEVEL", "model_checking"))
+        ctx = core.Ctx(pid, a.tier, seed, level=getattr(mod, "META", {}).get("level", "model_checking"))
         mod.run(ctx)
         return ctx.finish()
     except MachineryFailure as e:
